@@ -546,3 +546,21 @@ func init() {
 		engine.ServeWorker(vSchedWorker(vRunSched))
 	})
 }
+
+// VSchedWorker exposes the generic sched worker loop to harnesses of other packages.
+func VSchedWorker(runOnce func(w *VWorld, sc *SchedScenario, prefix []int, horizon int) *vsync.Execution) func(task []byte) interface{} {
+	return vSchedWorker(runOnce)
+}
+
+func VWorkerWorldDestroy() {
+	if vWorkerWorld != nil {
+		vWorkerWorld.Destroy()
+		vWorkerWorld = nil
+	}
+}
+
+// FinalDigestImpl / FinalDigestModel exported.
+func (h *VHist) FinalDigestImpl(names, ids []string) string { return h.finalDigestImpl(names, ids) }
+func (h *VHist) FinalDigestModel(m *model.World, names, ids []string) string {
+	return h.finalDigestModel(m, names, ids)
+}
